@@ -104,8 +104,8 @@ def slice_bytes(vals, name):
     if vals.get(name + ".nil") is True:
         return None
     n = vals.get(name + ".len")
-    if not isinstance(n, int):
-        return None
+    if not isinstance(n, int) or n < 0 or n > 1 << 16:
+        return None  # models with huge slices are not replayed
     out = []
     for i in range(n):
         b = vals.get("%s[%d]" % (name, i))
@@ -164,6 +164,22 @@ def run_replay(pid, outdir, n, plan):
             "seconds": round(time.time() - t0, 2), "test_file": test_path}
 
 
+def run_group(cmd, timeout):
+    """run cmd in its own process group; on timeout kill the whole group (solver children too)"""
+    import signal
+    p = subprocess.Popen(cmd, env=GOENV, stdout=subprocess.DEVNULL, stderr=subprocess.DEVNULL, start_new_session=True)
+    try:
+        p.wait(timeout=timeout)
+        return True
+    except subprocess.TimeoutExpired:
+        try:
+            os.killpg(p.pid, signal.SIGKILL)
+        except ProcessLookupError:
+            pass
+        p.wait()
+        return False
+
+
 # ---------------------------------------------------------------- main
 def base_name(name):
     return name.split("@")[0]
@@ -208,13 +224,22 @@ def main():
            "-assumed", os.path.join(VERIF, "contracts", "assumed"), "-workers", "5"]
     if args.overlay:
         cmd += ["-overlay", args.overlay]
-    r = subprocess.run(cmd, env=GOENV, capture_output=True, text=True)
-    log = r.stdout + r.stderr
-    with open(os.path.join(outdir, "govc.log"), "w") as f:
-        f.write(log)
+    import signal
+    logp = os.path.join(outdir, "govc.log")
+    with open(logp, "w") as lf:
+        pr = subprocess.Popen(cmd, env=GOENV, stdout=lf, stderr=subprocess.STDOUT, start_new_session=True)
+        try:
+            pr.wait(timeout=900 if args.tier == "quick" else 3600)
+        except subprocess.TimeoutExpired:
+            try:
+                os.killpg(pr.pid, signal.SIGKILL)
+            except ProcessLookupError:
+                pass
+            pr.wait()
+    log = open(logp).read()
     if not os.path.exists(res_json):
         print(log[-3000:])
-        print("ERROR: govc produced no result (exit %d)" % r.returncode)
+        print("ERROR: govc produced no result (exit %s)" % pr.returncode)
         write_error_evidence(pid, args, seed, t0, "govc failed: " + log[-500:])
         return 2
     res = json.load(open(res_json))
@@ -289,6 +314,64 @@ def main():
             json.dump(rec, f, indent=1)
         violations.append((base, path, confirmed))
 
+    # ---- bounded fallback for units whose contracts no longer bind (renamed
+    # locals, restructured loops) or that hit an unsupported construct: search
+    # for a failing input with every loop unrolled; ONLY a refutation that
+    # replays on the real code is reported (this pass never proves anything).
+    stale_units = [u["unit"] for u in units if u.get("error")]
+    bounded_info = []
+    for bound in (cfg.get("bounds") or [1, 2, 4]):
+        if not (stale_units and mod is not None) or any(v[2] for v in violations):
+            break
+        bjson = os.path.join(outdir, "bounded_%d.json" % bound)
+        bcmd = [GOVC, "verify", "-repo", REPO, "-pkgs", ",".join(cfg["pkgs"]), "-units", ",".join(stale_units),
+                "-out", os.path.join(outdir, "vc_bounded"), "-json", bjson, "-timeout", "5",
+                "-assumed", os.path.join(VERIF, "contracts", "assumed"), "-workers", "5", "-bounded", str(bound)]
+        if args.overlay:
+            bcmd += ["-overlay", args.overlay]
+        if not run_group(bcmd, 150):
+            break
+        if os.path.exists(bjson):
+            bres = json.load(open(bjson))
+            for u in bres["units"]:
+                groups = {}
+                for o in u.get("obligations") or []:
+                    if not o.get("cover") and o["status"] == "refuted":
+                        groups.setdefault(base_name(o["name"]), []).append(o)
+                bounded_info.append({"unit": u["unit"], "error": u.get("error"), "refuted_groups": sorted(groups)})
+                for base, obs in sorted(groups.items()):
+                    if [k for k in known_here if k["obligation"] == base]:
+                        continue
+                    rec = {"property": pid, "obligation": base + " (bounded search, loops unrolled <= %d)" % bound,
+                           "reason": "contracts of %s no longer bind to the code: %s" % (u["unit"], dict(errors).get(u["unit"], ""))}
+                    done = False
+                    for o in obs[:12]:
+                        if nrep >= 60:
+                            break
+                        vals = model_values(o.get("model") or "", u.get("probes") or [])
+                        try:
+                            plan = mod.build(u["unit"], o, vals)
+                        except Exception as e:
+                            plan = None
+                            rec["replay_error"] = repr(e)
+                        if plan is None:
+                            continue
+                        nrep += 1
+                        rp = run_replay(pid, outdir, nrep, plan)
+                        if rp["confirmed"]:
+                            rec["replay"] = rp
+                            rec["inputs"] = {k: v for k, v in vals.items() if not re.search(r"\[\d+\]$", k)}
+                            rec["solver_output"] = (o.get("model") or "")[:4000]
+                            rec["confirmed"] = True
+                            path = os.path.join(outdir, "violation_%s.json" % hashlib.sha1((base + "b").encode()).hexdigest()[:10])
+                            with open(path, "w") as f:
+                                json.dump(rec, f, indent=1)
+                            violations.append((rec["obligation"], path, True))
+                            done = True
+                            break
+                    if done:
+                        break
+
     wall = time.time() - t0
     # ---- evidence
     funcs = [u["unit"] for u in units]
@@ -315,6 +398,7 @@ def main():
                         "cover_sat": sum(1 for u in units for o in (u.get("obligations") or []) if o.get("status") == "cover-ok"),
                         "vacuous_units": vacuous},
             "bounded": cfg.get("bounded", []),
+            "bounded_fallback": bounded_info,
             "known_findings": known_lines,
             "errors": errors,
             "explanation": cfg.get("explanation", ""),
